@@ -126,14 +126,18 @@ CHECKS["C10"] = {
              "code attached under 0..6 wrapper layers of seven kinds incl. opaque ones and a second, different code attached further out (the outermost visible code is the error's code); hostile shapes) through drpcerr.Code, MarshalError, UnmarshalError: layout is 8-byte big-endian code + message, "
              "message and code survive, Code finds the attached code at any transparent depth (and 0 under an opaque layer). Non-trivial: depth >= 2, code >= 2^32, message >= 128 bytes or with special bytes, or a hostile shape. "
              "End-to-end half: a hand-written service description with the four method shapes is registered with the real mux and served over the simulated connection under drawn delivery schedules; the handler sends k in 0..4 messages and then returns nil or an error from the grammar (also together with a response value), "
-             "or the dispatcher itself fails (unknown RPC, request the encoding rejects - expected text obtained by calling the mux directly with a stub stream). The client error's Error() must equal the handler error's Error() byte for byte, its code the spec-derived code, the k messages arrive first in order, a nil-returning handler never yields a client error, and a probe RPC succeeds afterwards."),
+             "or the dispatcher itself fails (unknown RPC, request the encoding rejects - expected text obtained by calling the mux directly with a stub stream). The client error's Error() must equal the handler error's Error() byte for byte, its code the spec-derived code, the k messages arrive first in order, a nil-returning handler never yields a client error, and a probe RPC succeeds afterwards. "
+             "Generated-stubs half (C10/generated_stubs): for a drawn service (1..2 services, 1..5 methods of any shape, three protolibs) the plugin built from /repo generates client and server; the driver's handlers fail every method on request (drawn text, code, after 0..3 responses) and, on a second connection, every method is called on a server that does not know the service with a request of 0..2 MiB "
+             "(the dispatcher fails the call as soon as it has the invoke, possibly while the client still writes the request). The error the *generated client* hands to its caller (from the stub, Recv or CloseAndRecv) must have exactly the handler's / dispatcher's text and code, responses sent before the failure arrive first, and every method round-trips afterwards."),
     "assumptions": ["chains deeper than 99 layers are don't-care for the code (the unwrap loop is bounded at 100); only termination and message identity are asserted there"],
     "subs": [
         {"test": "TestC10ErrCodec", "prop": "C10/codec", "quick": 60000, "thorough": 3000000, "shards_quick": 4, "shards_thorough": 8},
         {"test": "TestC10UnmarshalErr", "prop": "C10/unmarshal", "quick": 20000, "thorough": 1000000, "shards_quick": 2, "shards_thorough": 4},
         {"test": "TestC10EndToEnd", "prop": "C10/end_to_end", "pkg": "./conn", "quick": 16000, "thorough": 600000, "shards_quick": 16, "shards_thorough": 16, "gomaxprocs": 1},
+        {"test": "TestC10Generated", "prop": "C10/generated_stubs", "pkg": "./gen", "quick": 64, "thorough": 1600, "shards_quick": 16, "shards_thorough": 16, "timeout_quick": 1200, "shrinktime": "120s"},
     ],
     "floors": {"C10/codec": {"depth_2plus": 0.3, "code_ge_2_32": 0.075, "special_bytes": 0.2},
+               "C10/generated_stubs": {"shape_server_streaming": 0.4, "shape_unary": 0.4, "unknown_rpc_with_multi_frame_request": 0.3, "coded_error": 0.4},
                "C10/end_to_end": {"handler_error": 0.307, "dispatcher_failure": 0.1, "shape_1": 0.1, "shape_2": 0.05, "shape_3": 0.1}},
 }
 
